@@ -301,6 +301,34 @@ impl<'g, 'a> Fx<'g, 'a> {
         None
     }
 
+    /// call of a translated procedure with the arguments after the parser
+    fn proc_call(&self, sig: &Sig, call_args: &[&Expr], dest: Dest, sp: Span) -> R<S> {
+        if call_args.len() != sig.params.len() {
+            return fail(sp, "argument count mismatch");
+        }
+        let mut args = Vec::new();
+        let mut margs = Vec::new();
+        for (a, is_mark) in call_args.iter().zip(sig.params.iter()) {
+            if *is_mark {
+                match path_ident(a).and_then(|n| self.lookup(&n)) {
+                    Some(Var::Mark(m)) => margs.push(m),
+                    _ => return fail(a.span(), "mark argument must be a mark variable"),
+                }
+            } else {
+                args.push(self.expr(a)?);
+            }
+        }
+        let dst = match (sig.ret, dest) {
+            (_, Dest::Discard) => Dst::None,
+            (Ty::Mark, Dest::Mark(m)) => Dst::Mark(m),
+            (Ty::OptMark, Dest::OptMark(m, f)) => Dst::OptMark(m, f),
+            (Ty::Nat, Dest::Nat(x)) => Dst::Nat(x),
+            (Ty::Unit, _) => Dst::None,
+            _ => return fail(sp, "call result used at an unsupported type"),
+        };
+        Ok(S::Call(sig.idx, args, margs, dst))
+    }
+
     fn at(&self, k: &Expr) -> R<E> {
         Ok(E::Eq(Box::new(E::Nth(0)), Box::new(self.expr(k)?)))
     }
@@ -310,7 +338,7 @@ impl<'g, 'a> Fx<'g, 'a> {
             Expr::MethodCall(m) if is_p(&m.receiver) => match m.method.to_string().as_str() {
                 "start_node" | "start_node_before" | "finish_node" => Ty::Mark,
                 "at" | "at_any" | "eof" | "nth" | "eat" => Ty::Nat,
-                _ => Ty::Unit,
+                other => self.g.sigs.get(other).map(|s| s.ret).unwrap_or(Ty::Unit),
             },
             Expr::Call(c) => {
                 if let Some(n) = path_ident(&c.func) {
@@ -756,30 +784,8 @@ impl<'g, 'a> Fx<'g, 'a> {
                 if c.args.is_empty() || !is_p(&c.args[0]) {
                     return fail(e.span(), "grammar function not called with the parser");
                 }
-                let mut args = Vec::new();
-                let mut margs = Vec::new();
-                for (a, is_mark) in c.args.iter().skip(1).zip(sig.params.iter()) {
-                    if *is_mark {
-                        match path_ident(a).and_then(|n| self.lookup(&n)) {
-                            Some(Var::Mark(m)) => margs.push(m),
-                            _ => return fail(a.span(), "mark argument must be a mark variable"),
-                        }
-                    } else {
-                        args.push(self.expr(a)?);
-                    }
-                }
-                if c.args.len() - 1 != sig.params.len() {
-                    return fail(e.span(), "argument count mismatch");
-                }
-                let dst = match (sig.ret, dest) {
-                    (_, Dest::Discard) => Dst::None,
-                    (Ty::Mark, Dest::Mark(m)) => Dst::Mark(m),
-                    (Ty::OptMark, Dest::OptMark(m, f)) => Dst::OptMark(m, f),
-                    (Ty::Nat, Dest::Nat(x)) => Dst::Nat(x),
-                    (Ty::Unit, _) => Dst::None,
-                    _ => return fail(e.span(), "call result used at an unsupported type"),
-                };
-                Ok(S::Call(sig.idx, args, margs, dst))
+                let args: Vec<&Expr> = c.args.iter().skip(1).collect();
+                self.proc_call(&sig, &args, dest, e.span())
             }
             Expr::MethodCall(m) if is_p(&m.receiver) => {
                 let name = m.method.to_string();
@@ -843,7 +849,14 @@ impl<'g, 'a> Fx<'g, 'a> {
                         let v = self.expr(e)?;
                         self.store_nat(v, dest, e.span())
                     }
-                    _ => fail(e.span(), format!("unsupported parser method p.{name}")),
+                    _ => {
+                        let sig = match self.g.sigs.get(&name) {
+                            Some(s) => s.clone(),
+                            None => return fail(e.span(), format!("unsupported parser method p.{name}")),
+                        };
+                        let args: Vec<&Expr> = m.args.iter().collect();
+                        self.proc_call(&sig, &args, dest, e.span())
+                    }
                 }
             }
             Expr::Path(_) => {
@@ -967,34 +980,77 @@ fn is_grammar_fn(f: &ItemFn) -> bool {
     }
 }
 
-pub fn collect_sigs(file: &File) -> R<(Vec<&ItemFn>, HashMap<String, Sig>)> {
+/// a grammar procedure: a free `fn f(p: &mut Parser, …)` or a helper method `fn f(&mut self, …)` of `impl Parser`
+#[derive(Clone, Copy)]
+pub struct FnRef<'a> {
+    pub sig: &'a Signature,
+    pub block: &'a Block,
+}
+
+/// the methods of `impl Parser` the DSL has as primitives (their bodies are read by policy.rs)
+const PARSER_PRIMITIVES: [&str; 14] = [
+    "build_tree", "error", "start_node", "start_node_before", "finish_node", "bump", "bump_with_error", "eof", "nth", "at",
+    "at_any", "eat", "expect", "new",
+];
+
+fn sig_of(sig: &Signature, idx: usize) -> R<Sig> {
+    let mut params = Vec::new();
+    for a in sig.inputs.iter().skip(1) {
+        if let FnArg::Typed(pt) = a {
+            if type_is(&pt.ty, "MarkOpened") {
+                params.push(true);
+            } else if type_is(&pt.ty, "bool") || type_is(&pt.ty, "u8") || type_is(&pt.ty, "SyntaxKind") {
+                params.push(false);
+            } else {
+                return fail(pt.span(), "unsupported parameter type");
+            }
+        }
+    }
+    Ok(Sig { idx, ret: ret_ty(sig)?, params })
+}
+
+pub fn collect_sigs(file: &File) -> R<(Vec<FnRef<'_>>, HashMap<String, Sig>)> {
     let mut fns = Vec::new();
     let mut sigs = HashMap::new();
     for it in &file.items {
-        if let Item::Fn(f) = it {
-            if !is_grammar_fn(f) {
-                continue;
+        match it {
+            Item::Fn(f) => {
+                if !is_grammar_fn(f) {
+                    continue;
+                }
+                sigs.insert(f.sig.ident.to_string(), sig_of(&f.sig, fns.len())?);
+                fns.push(FnRef { sig: &f.sig, block: &f.block });
             }
-            let mut params = Vec::new();
-            for a in f.sig.inputs.iter().skip(1) {
-                if let FnArg::Typed(pt) = a {
-                    if type_is(&pt.ty, "MarkOpened") {
-                        params.push(true);
-                    } else if type_is(&pt.ty, "bool") || type_is(&pt.ty, "u8") {
-                        params.push(false);
-                    } else {
-                        return fail(pt.span(), "unsupported parameter type");
+            Item::Impl(im) if im.trait_.is_none() => {
+                let is_parser = matches!(&*im.self_ty, Type::Path(tp) if tp.path.segments.last().map(|s| s.ident == "Parser").unwrap_or(false));
+                if !is_parser {
+                    continue;
+                }
+                for ii in &im.items {
+                    if let ImplItem::Fn(f) = ii {
+                        let name = f.sig.ident.to_string();
+                        if PARSER_PRIMITIVES.contains(&name.as_str()) {
+                            continue;
+                        }
+                        // a helper built from the primitives: translated like a grammar function (receiver = the parser)
+                        if !matches!(f.sig.inputs.first(), Some(FnArg::Receiver(_))) {
+                            return fail(f.sig.span(), format!("Parser::{name}: helper without a self receiver"));
+                        }
+                        if sigs.contains_key(&name) {
+                            return fail(f.sig.span(), format!("Parser::{name}: name clashes with a grammar function"));
+                        }
+                        sigs.insert(name, sig_of(&f.sig, fns.len())?);
+                        fns.push(FnRef { sig: &f.sig, block: &f.block });
                     }
                 }
             }
-            sigs.insert(f.sig.ident.to_string(), Sig { idx: fns.len(), ret: ret_ty(&f.sig)?, params });
-            fns.push(f);
+            _ => {}
         }
     }
     Ok((fns, sigs))
 }
 
-pub fn translate_fn(g: &Gen, f: &ItemFn) -> R<ProcOut> {
+pub fn translate_fn(g: &Gen, f: FnRef) -> R<ProcOut> {
     let sig = g.sigs.get(&f.sig.ident.to_string()).unwrap().clone();
     let mut fx = Fx {
         g,
@@ -1024,12 +1080,12 @@ pub fn translate_fn(g: &Gen, f: &ItemFn) -> R<ProcOut> {
     let body = match sig.ret {
         Ty::Mark => {
             let r = fx.tmp_mark();
-            let s = fx.block(&f.block, Dest::Mark(r))?;
+            let s = fx.block(f.block, Dest::Mark(r))?;
             seq(s, S::Ret(Ret::Mark(r)))
         }
-        Ty::OptMark => fx.block(&f.block, Dest::Discard)?,
+        Ty::OptMark => fx.block(f.block, Dest::Discard)?,
         Ty::Nat => return fail(f.sig.span(), "nat-returning grammar functions are not supported"),
-        Ty::Unit => fx.block(&f.block, Dest::Discard)?,
+        Ty::Unit => fx.block(f.block, Dest::Discard)?,
     };
     let _ = &fx.fname;
     Ok(ProcOut {
